@@ -347,11 +347,36 @@ fn ipa(ctx: &mut Ctx, rng: &mut ChaCha20Rng) {
     }
 }
 
+/// Honest batch proof over three or four point labels, with a coordinated pair of false values whose weighted
+/// errors cancel if two points receive the same batching randomizer (the weights are the public opening challenges).
+fn batch_cancelling<S: Scheme>(ctx: &mut Ctx, rng: &mut ChaCha20Rng) {
+    let tx = match gen_tx::<S>(rng, false, 3) {
+        Ok(t) => t,
+        Err(_) => return ctx.skipped("baseline", "honest pipeline refused (reported under C01/C17)"),
+    };
+    let q = gen_queries::<S>(&tx.w.cfg, &tx.polys, range(rng, 3, 4), rng);
+    let ident: Vec<usize> = (0..tx.polys.len()).collect();
+    let proof = match batch_open::<S>(&tx, &ident, &q.qs, &mut tx.sponge(), rng.next_u64()) {
+        Ok(p) => p,
+        Err(_) => return ctx.skipped("baseline", "honest batch_open refused (reported under C01)"),
+    };
+    let proofs: Vec<ProofOf<S>> = proof.clone().into();
+    let txj = json!({"tx": tx.json(), "queries": q.json()});
+    super::c05::challenge_aware_across_points::<S>(ctx, &tx, &q, &proof, &proofs, &tx.c.comms, &txj, rng, "honest-proof-cancelling-values[across-points]", false);
+}
+
 pub fn run(ctx: &mut Ctx) {
     for_each_scheme!(ctx, S, {
         let n = ctx.n(100, 2000) / <S as Scheme>::WEIGHT.max(1);
         ctx.run_cases(<S as Scheme>::NAME, n.max(4), |ctx, _i, rng| generic_case::<S>(ctx, rng));
     });
+    {
+        let n = ctx.n(40, 800);
+        ctx.run_cases("marlin/batch", n / 2, |ctx, _i, rng| batch_cancelling::<MarlinS<E381>>(ctx, rng));
+        ctx.run_cases("sonic/batch", n / 3, |ctx, _i, rng| batch_cancelling::<SonicS<E381>>(ctx, rng));
+        ctx.run_cases("pst13/batch", n / 4, |ctx, _i, rng| batch_cancelling::<Pst13S<E381>>(ctx, rng));
+        ctx.run_cases("ipa/batch", n, |ctx, _i, rng| batch_cancelling::<IpaS>(ctx, rng));
+    }
     let n = ctx.n(80, 1600);
     ctx.run_cases("marlin/components", n / 2, |ctx, _i, rng| marlin_like::<MarlinS<E381>>(ctx, rng));
     ctx.run_cases("sonic/components", n / 2, |ctx, _i, rng| marlin_like::<SonicS<E381>>(ctx, rng));
